@@ -119,6 +119,11 @@ fn size_menu(s: &Script) -> Vec<u64> {
 
 /// Observables under the declared-size model.
 fn judge(st: &St) -> Result<(), String> {
+    // a panic escaping from the library through any call below is a violation of this case, not a crash
+    guard_case(|| judge_unguarded(st))
+}
+
+fn judge_unguarded(st: &St) -> Result<(), String> {
     if let Some(b) = &st.bad {
         return Err(b.clone());
     }
